@@ -208,6 +208,36 @@ func (f *handlerFactory) New(ctx context.Context, cp config.Provider, options ma
 	return f.tp.Wrap(id, f.inner.New(ctx, cp, options))
 }
 
+// spanFactory wraps the reference server's SPAN handler type (replicates the packets of a
+// connection to a "span host" and then hands the request to the START handler).
+type spanFactory struct {
+	inner *handlers.Span
+	tp    *tap.Tap
+	mu    sync.Mutex
+	n     int
+}
+
+func (f *spanFactory) New(ctx context.Context, cp config.Provider, options map[string]string) tq.Handler {
+	h := f.inner.New(ctx, cp, options)
+	if h == nil {
+		return nil
+	}
+	f.mu.Lock()
+	f.n++
+	id := fmt.Sprintf("span#%d", f.n)
+	f.mu.Unlock()
+	return f.tp.Wrap(id, h)
+}
+
+// DeadSpanHost is a span destination nobody listens on (the dial is refused at once).
+const DeadSpanHost = "[::1]:1"
+
+// AsSpan turns a scope into a SPAN scope with the given destination.
+func AsSpan(sc config.SecretConfig, destination string) config.SecretConfig {
+	sc.Handler = config.Handler{Type: config.SPAN, Options: map[string]string{"destination": destination}}
+	return sc
+}
+
 // Start builds the loader and (unless NoServe) the server, publishes cfg and
 // waits until it is loaded.
 func Start(cfg config.ServerConfig, opt Options) (*Ref, error) {
@@ -287,6 +317,7 @@ func Start(cfg config.ServerConfig, opt Options) (*Ref, error) {
 		loader.SetAuthorizerProvider(stringy.New(lg)),
 		loader.RegisterSecretProviderType(config.PREFIX, prefix.New(lg)),
 		loader.RegisterHandlerType(config.START, &handlerFactory{inner: handlers.NewStart(lg), tp: tp}),
+		loader.RegisterHandlerType(config.SPAN, &spanFactory{inner: handlers.NewSpan(lg), tp: tp}),
 		loader.RegisterAuthenticator(config.BCRYPT, bcrypt.New(lg, keys)),
 		loader.RegisterAccounter(config.FILE, acct),
 	)
